@@ -438,10 +438,6 @@ Proof.
     injection H as <-. simpl. f_equal. apply IH; auto.
 Qed.
 
-Lemma filter_combine_map {A B} (g : A -> bool) (h : A -> B -> bool) : forall (l : list A) (ds : list B),
-  length (filter (fun cd : bool * B => fst cd && h' cd) (combine (map g l) ds)) = 0%nat -> True.
-Proof. Abort.
-
 Lemma count_map_combine (w : box -> bool) eps : forall bs (ds : list Q),
   length (filter (fun cd : bool * Q => fst cd && Qle_bool (snd cd) eps) (combine (map w bs) ds))
   = length (filter (fun bd : box * Q => w (fst bd) && Qle_bool (snd bd) eps) (combine bs ds)).
@@ -470,10 +466,12 @@ Proof.
     pose proof (contains_all_spec bs th cs E Hwf Hd) as Hcs.
     pose proof (sum_over_regions_indicators_spec cs ds eps 0) as Hs.
     destruct (sum_over_regions_indicators 0 cs ds eps) as [n' called'].
-    apply Some_inj in H. injection H as <- <- <-. split; [|apply Qred_correct].
+    apply Some_inj in H. apply pair_equal_spec in H. destruct H as [H _].
+    apply pair_equal_spec in H. destruct H as [Hv Hn]. subst v n. split; [|apply Qred_correct].
     simpl in Hs. rewrite Hs by (subst cs; rewrite map_length; exact Hlen).
     subst cs. unfold spec_count. apply count_map_combine.
-  - apply Some_inj in H. injection H as <- <- <-. split; [|apply Qred_correct].
+  - apply Some_inj in H. apply pair_equal_spec in H. destruct H as [H _].
+    apply pair_equal_spec in H. destruct H as [Hv Hn]. subst v n. split; [|apply Qred_correct].
     rewrite sum_over_indicators_spec. unfold spec_count. apply count_true_combine. exact Hlen.
 Qed.
 
@@ -489,7 +487,7 @@ Proof. intros q pr dist eps Hq. unfold weight. apply Qltb_false in Hq. rewrite H
 (** a sample that lies in its region: weight = [dist < eps] * prior * volume *)
 Theorem weight_of_contained : forall R Rinv c l b p pr dist eps,
   mk_box R Rinv c l = Some b -> contains b p = Some true ->
-  exists q, pdf b p = Some q /\ 0 < q /    weight q pr dist eps == (if Qltb dist eps then 1 else 0) * pr * b_vol b.
+  exists q, pdf b p = Some q /\ 0 < q /\ weight q pr dist eps == (if Qltb dist eps then 1 else 0) * pr * b_vol b.
 Proof.
   intros R Rinv c l b p pr dist eps Hb Hc.
   destruct (pdf_inside_pos _ _ _ _ _ _ Hb Hc) as (q & H1 & H2 & H3).
@@ -505,11 +503,11 @@ Qed.
 Theorem ok_ls_sound : forall c o0 v0 rest,
   ok_ls c = true -> lc_impl_probes c = (o0, v0) :: rest ->
   o0 == 0 -> v0 < lc_eps c -> 0 < lc_eta c ->
-  0 < lc_impl_res c /  (forall p v, In (p, v) (lc_impl_probes c) -> p < lc_impl_res c -> v < lc_eps c) /  ((1 <= lc_rep_lim c)%nat -> forall p v, In (p, v) (lc_impl_probes c) -> p <= lc_impl_res c -> v < lc_eps c).
+  0 < lc_impl_res c /\ (forall p v, In (p, v) (lc_impl_probes c) -> p < lc_impl_res c -> v < lc_eps c) /\ ((1 <= lc_rep_lim c)%nat -> forall p v, In (p, v) (lc_impl_probes c) -> p <= lc_impl_res c -> v < lc_eps c).
 Proof.
   intros c o0 v0 rest H Hp H0 Hv He. unfold ok_ls in H. rewrite Hp in H. rewrite <- Hp in H.
   apply Qeq_bool_iff in H0. apply Qltb_true in Hv. apply Qltb_true in He. rewrite H0, Hv, He in H.
-  simpl in H. apply andb_true_iff in H. destruct H as [H H3]. apply andb_true_iff in H. destruct H as [H1 H2].
+  cbn [andb] in H. apply andb_true_iff in H. destruct H as [H H3]. apply andb_true_iff in H. destruct H as [H1 H2].
   split; [apply Qltb_true; exact H1|]. split.
   - intros p v Hin Hlt. unfold probes_ok in H2. rewrite forallb_forall in H2. specialize (H2 _ Hin).
     simpl in H2. apply Qltb_true in Hlt. rewrite Hlt in H2. apply Qltb_true. exact H2.
@@ -524,19 +522,50 @@ Theorem model_ok_ls : forall tbl dflt eps K eta rep_lim res log,
   ok_ls {| lc_tbl := tbl; lc_dflt := dflt; lc_eps := eps; lc_K := K; lc_eta := eta; lc_rep_lim := rep_lim;
            lc_impl_res := res; lc_impl_probes := map (fun p => (p, pw tbl dflt p)) log |} = true.
 Proof.
-  intros tbl dflt eps K eta rep_lim res log H. unfold ok_ls. simpl.
-  destruct log as [|o0 rest] eqn:El; simpl.
-  - (* nothing probed: K = 0 *)
-    destruct (Qltb 0 eta) eqn:Ee; [|reflexivity].
-    destruct K; simpl in H.
-    + unfold line_search in H. simpl in H. injection H as <- _. exact Ee.
-    + exfalso. unfold line_search in H. cbn [ls_outer] in H.
-      destruct (ls_while (ls_fuel rep_lim) (pw tbl dflt) eps eta rep_lim 0 0 []) as [[off1 rep] log1] eqn:EW.
-      apply (ls_while_spec (pw tbl dflt) eps) in EW; [|unfold ls_fuel; lia].
-      destruct EW as (r & new & _ & _ & Hl & _).
-      unfold ls_fuel in *.
-      assert (Hne : log1 <> []).
-      { clear - EW0. revert EW0. admit. }
-      admit.
-  - admit.
-Admitted.
+  intros tbl dflt eps K eta rep_lim res log H. unfold ok_ls.
+  cbn [lc_impl_probes lc_eps lc_eta lc_impl_res lc_rep_lim].
+  destruct log as [|o0 rest]; [reflexivity|]. cbn [map].
+  change ((o0, pw tbl dflt o0) :: map (fun p => (p, pw tbl dflt p)) rest)
+    with (map (fun p => (p, pw tbl dflt p)) (o0 :: rest)).
+  destruct (Qeq_bool o0 0 && Qltb (pw tbl dflt o0) eps && Qltb 0 eta) eqn:E; [|reflexivity].
+  apply andb_true_iff in E. destruct E as [E E3]. apply andb_true_iff in E. destruct E as [E1 E2].
+  apply Qeq_bool_iff in E1. apply Qltb_true in E2. apply Qltb_true in E3.
+  assert (H0 : below (pw tbl dflt) eps 0).
+  { unfold below. rewrite <- (pw_proper tbl dflt o0 0 E1). exact E2. }
+  destruct (line_search_spec (pw tbl dflt) eps (pw_proper tbl dflt) K eta rep_lim res _ H0 E3 H) as (A & B & C).
+  apply andb_true_iff. split; [apply andb_true_iff; split|].
+  - apply Qltb_true; exact A.
+  - unfold probes_ok. apply forallb_forall. intros [p v] Hin. apply in_map_iff in Hin.
+    destruct Hin as (p' & Hpv & Hin). apply pair_equal_spec in Hpv. destruct Hpv as [<- <-]. cbn [fst snd].
+    destruct (Qltb p' res) eqn:Ep; [|reflexivity]. apply Qltb_true in Ep. apply Qltb_true. apply (B p' Hin Ep).
+  - destruct (Nat.leb 1 rep_lim) eqn:Er; [|reflexivity]. apply Nat.leb_le in Er.
+    unfold probes_ok. apply forallb_forall. intros [p v] Hin. apply in_map_iff in Hin.
+    destruct Hin as (p' & Hpv & Hin). apply pair_equal_spec in Hpv. destruct Hpv as [<- <-]. cbn [fst snd].
+    destruct (Qle_bool p' res) eqn:Ep; [|reflexivity]. apply Qle_bool_iff in Ep. apply Qltb_true. apply (C Er p' Hin Ep).
+Qed.
+
+(** the box check: what [ok_box] establishes about the implementation's observed outputs *)
+Theorem ok_box_sound : forall c, ok_box c = true -> bc_impl_ok c = true ->
+  proper_lims (bc_impl_lims c) /\ 0 < bc_impl_vol c /\ Forall (fun o => so_contains o = true) (bc_smps c).
+Proof.
+  intros c H Hok. unfold ok_box in H. rewrite Hok in H.
+  repeat (apply andb_true_iff in H; destruct H as [H ?]).
+  split; [|split].
+  - apply Forall_forall. intros x Hx. rewrite forallb_forall in H. apply Qltb_true. apply H. exact Hx.
+  - apply Qltb_true. assumption.
+  - apply Forall_forall. intros o Ho. rewrite forallb_forall in H1. specialize (H1 o Ho).
+    unfold ok_smp in H1. apply andb_true_iff in H1. apply H1.
+Qed.
+
+(** the model's own box passes the structural clauses of [ok_box] *)
+Theorem model_ok_box : forall R Rinv c l b, mk_box R Rinv c l = Some b ->
+  forallb (fun x : Q * Q => Qltb (fst x) (snd x)) (b_lims b) = true /\ Qltb 0 (b_vol b) = true /\ close (b_vol b) (volume (b_lims b)) = true.
+Proof.
+  intros R Rinv c l b H. destruct (mk_box_sound _ _ _ _ _ H) as (H1 & H2 & H3 & _).
+  split; [|split].
+  - apply forallb_forall. intros x Hx. apply Qltb_true. unfold proper_lims in H1. rewrite Forall_forall in H1. auto.
+  - apply Qltb_true. exact H2.
+  - rewrite <- H3. unfold close. apply Qle_bool_iff.
+    assert (E : b_vol b - b_vol b == 0) by ring. rewrite E. simpl Qabs at 1.
+    pose proof (Qabs_nonneg (b_vol b)). unfold ntol. lra.
+Qed.
